@@ -35,7 +35,7 @@ func run(c *mon.Ctx) {
 		workerMain(c)
 		return
 	}
-	c.Rule = "inputs = structure-aware mutations of valid encodings, a pure function of (seed, tier, unit, k). Bases: one small (<= 300 B) valid encoding per (message kind, version) [reference encoder; quick tier: every 5th pair, rotating with the seed], every 37th (quick) / 8th (thorough) enumerated optional-field shape, LZ4/Snappy-compressed frames, message bodies, type descriptors, every primitive notation, v5 segments [independent writer], LZ4/Snappy blocks, generated CQL (type, value) encodings [independent serializer]. Contents of the swept bases are zeroed (same structure and lengths) so that a shifted read does not turn text into a gigabyte length; the original encodings are decoded as they are and truncated at every offset. Mutations: (a) every offset x width {1,2,4} <- {-1,-2,0,1,old-1,old+1,2^7,2^8-1,2^15,2^16-1} (CQL values in the quick tier: a PRNG sample of 240 such triples), except those that turn a 4-byte window holding 0..65535 or a negative number into 2^17..2^31-1; 2^24 on one PRNG-chosen length-like field per base; (b) truncation at every offset; (c) 64 PRNG bit flips (same exception); (d) splices; (e) random bytes of length 0..64 (biased towards 0x00/0xFF, a few uniform) and random bodies behind valid headers; (f) specials: 0xFF / 0x00 / rows / string lists / maximal counts without data, 64 KiB (quick) or 1 MiB (thorough), type descriptors nested 2048 deep; segment header fields with the CRC-24 recomputed and payloads with the CRC-32 recomputed; hostile decompressed-length prefixes and hostile LZ4/Snappy blocks; CQL bytes of type A through the codec of type B; every CQL mutant into the generated representation, *interface{}, the universal and the preferred representation and pre-filled slices/maps. {2^25, 2^28, 2^30, 2^31-1, -2^31} only on a PRNG sample of length-like fields, one execution each, in a dedicated serialised worker (resource table; thorough: also descriptors nested 32768 / 524288 deep). Cost control that decides nothing: after an execution that allocated > 8 MiB the remaining entry points / destinations of the same mutant are not run (counted). distinct = (entry point, version, compressor, mutation class, outcome, base kind)"
+	c.Rule = "inputs = structure-aware mutations of valid encodings, a pure function of (seed, tier, unit, k). Bases: one small (<= 300 B) valid encoding per (message kind, version) [reference encoder; quick tier: every 6th pair, rotating with the seed], every 61st (quick) / 8th (thorough) enumerated optional-field shape, LZ4/Snappy-compressed frames, message bodies, type descriptors, every primitive notation, v5 segments [independent writer], LZ4/Snappy blocks, generated CQL (type, value) encodings [independent serializer]. Contents of the swept bases are zeroed (same structure and lengths) so that a shifted read does not turn text into a gigabyte length; the original encodings are decoded as they are and truncated at every offset. Mutations: (a) every offset x width {1,2,4} <- {-1,-2,0,1,old-1,old+1,2^7,2^8-1,2^15,2^16-1} (CQL values in the quick tier: a PRNG sample of 120 such triples), except those that turn a 4-byte window holding 0..65535 or a negative number into 2^17..2^31-1; 2^24 on one PRNG-chosen length-like field per base; (b) truncation at every offset; (c) 64 (quick: 32) PRNG bit flips (same exception); (d) splices; (e) random bytes of length 0..64 (biased towards 0x00/0xFF, a few uniform) and random bodies behind valid headers; (f) specials: 0xFF / 0x00 / rows / string lists / maximal counts without data, 64 KiB (quick) or 1 MiB (thorough), type descriptors nested 2048 deep; segment header fields with the CRC-24 recomputed and payloads with the CRC-32 recomputed; hostile decompressed-length prefixes and hostile LZ4/Snappy blocks; CQL bytes of type A through the codec of type B; every CQL mutant into the generated representation, *interface{}, the universal and the preferred representation and pre-filled slices/maps. {2^25, 2^28, 2^30, 2^31-1, -2^31} only on a PRNG sample of length-like fields, one execution each, in a dedicated serialised worker (resource table; thorough: also descriptors nested 32768 / 524288 deep). Cost control that decides nothing: after an execution that allocated > 8 MiB the remaining entry points / destinations of the same mutant are not run (counted). distinct = (entry point, version, compressor, mutation class, outcome, base kind)"
 	c.Assume("a call that returns (value or error) in a worker process returned; nothing else is trusted: no model of the library decides anything")
 	c.Assume("memory exhaustion under the address-space cap (ulimit -v 2.5 GiB per worker, soft heap limit 1 GiB; the 8 GiB bound of the design is never approached), and a call that has not returned after 5 x 60 s alone while its resident memory is still growing, are the separate resource class (reported with inputs, inconclusive), not violations: the statement lists panic, nil dereference, stack overflow and non-termination")
 	c.Assume("the exported primitive.Read* functions are those matched by '^func Read' in <repo>/primitive/*.go (compared with the check's table at run time)")
